@@ -65,6 +65,14 @@ func main() {
 		opHTML(r, *n, *tier)
 	case "guess":
 		opGuess(r, *n, *tier, *seed)
+	case "augment":
+		opAugment(r, *n, *tier, *seed)
+	case "handler":
+		opHandler(r, *n, *tier)
+	case "live":
+		opLive(r, *n, *tier)
+	case "alias":
+		opAlias(r, *n, *tier)
 	case "replay":
 		opReplay()
 	default:
